@@ -149,7 +149,7 @@ def get_case(script, handler_outcomes, final_status, file_backed, msg_id=9, cons
     ae.timeout = 0.01
     ae.add_scu(sopclass.qr_get_scu)
     store_alias = alias(sopclass.storage_scu, [], False)
-    if file_backed:
+    if file_backed and file_backed != 'late':
         store_alias.store_in_file = True
     ae.add_scu(store_alias, sops)
     state = {'ids': {}, 'store_reqs': []}
@@ -195,6 +195,9 @@ def get_case(script, handler_outcomes, final_status, file_backed, msg_id=9, cons
         with fd.installed(fac):
             with ae.request_association({'aet': 'SRV', 'address': 'peer.example', 'port': 104}) as assoc:
                 dul = fac.instances[0]
+                if file_backed == 'late':
+                    # the application decides to spool these classes to files when the association is already open
+                    ae.update_context_def_list(sops, store_in_file=True)
                 gen = assoc.get_scu(svc.PATIENT_GET)(svc.simple_ds(PatientID='1', QueryRetrieveLevel='PATIENT'), msg_id)
                 for ctx, item in gen:
                     if hasattr(item, 'read'):
@@ -340,7 +343,7 @@ def run_random(ctx, n):
         st.integers(0, 127).map(lambda x: 2 * x + 1))
     get = st.tuples(st.just('get'), st.lists(st.sampled_from('SSSP'), min_size=0, max_size=8).map(''.join),
                     st.lists(st.sampled_from(['s', 's', 'w', 'f', 'raise']), min_size=8, max_size=8),
-                    st.sampled_from([0x0000, 0xB000, 0xA701, 0xC000, 0xFE00]), st.sampled_from([False, True, 'archive']), st.integers(0, 65535))
+                    st.sampled_from([0x0000, 0xB000, 0xA701, 0xC000, 0xFE00]), st.sampled_from([False, True, 'archive', 'late']), st.integers(0, 65535))
 
     def fn(value):
         if value[0] == 'move':
@@ -359,7 +362,7 @@ def run_random(ctx, n):
 
 def run_get_enum(ctx):
     for script in ('', 'S', 'SP', 'PS', 'SS', 'SPS', 'PSSP', 'SSS', 'PPSPS'):
-        for fb in (False, True, 'archive'):
+        for fb in (False, True, 'archive', 'late'):
             for hi, hos in enumerate((['s'] * 8, ['w', 'f', 's', 'raise'] * 2, ['raise'] * 8)):
                 ctx.case(('get', script, fb, hos[0]), script.count('S') >= 2 or 'P' in script,
                          labels=['get', 'enum', ('spool-file' if fb == 'archive' else 'file') if fb else 'memory'],
